@@ -43,7 +43,7 @@ def NotTo (p : Nat) : Act → Prop
   | _ => True
 
 section
-variable (n q1 q2 p b : Nat)
+variable (n q1 q2 p b : Nat) (v : Val)
 
 /-- cumulative stages of acceptor `d` in phase 1 / phase 2 of ballot `b` -/
 def S2 (s : St) (d : Nat) : Prop := d ∈ (s.p1 b).map (·.1)
@@ -64,6 +64,9 @@ structure G (s : St) : Prop where
   i1 : q1 ≤ (s.p1 b).length → (s.started2 b).isSome
   i2 : (s.started2 b).isSome → T2 b s p ∧ (∀ d, d ≠ p → d < n → T0 b s d) ∧
         (q2 ≤ (s.acks b).length → (s.decided p).isSome)
+  pre : (s.started2 b).isNone → s.acks b = [] ∧ ∀ d, s.mAcptd b d = false ∧ s.mAcpt b d = none
+  dec : (s.decided p).isSome → ∀ d, d ≠ p → d < n → (s.decided d).isSome ∨ s.mDec p d = s.decided p
+  pv : s.proposedVals = [v]
 
 /-- stages never go back -/
 structure Mono (s s' : St) : Prop where
@@ -74,18 +77,19 @@ structure Mono (s s' : St) : Prop where
   t1 : ∀ d, T1 b s d → T1 b s' d
   t2 : ∀ d, T2 b s d → T2 b s' d
   dc : ∀ d, (s.decided d).isSome → (s'.decided d).isSome
+  st : (s.started2 b).isSome → (s'.started2 b).isSome
 
-theorem Mono.refl (s : St) : Mono b s s := ⟨fun _ h => h, fun _ h => h, fun _ h => h, fun _ h => h, fun _ h => h, fun _ h => h, fun _ h => h⟩
+theorem Mono.refl (s : St) : Mono b s s := ⟨fun _ h => h, fun _ h => h, fun _ h => h, fun _ h => h, fun _ h => h, fun _ h => h, fun _ h => h, fun h => h⟩
 
 theorem Mono.trans {s s' s'' : St} (h1 : Mono b s s') (h2 : Mono b s' s'') : Mono b s s'' :=
   ⟨fun d h => h2.s0 d (h1.s0 d h), fun d h => h2.s1 d (h1.s1 d h), fun d h => h2.s2 d (h1.s2 d h),
    fun d h => h2.t0 d (h1.t0 d h), fun d h => h2.t1 d (h1.t1 d h), fun d h => h2.t2 d (h1.t2 d h),
-   fun d h => h2.dc d (h1.dc d h)⟩
+   fun d h => h2.dc d (h1.dc d h), fun h => h2.st (h1.st h)⟩
 
 /-! ### `Prepare` delivered -/
 
-theorem prepare_step (s : St) (d : Nat) (g : G n q1 q2 p b s) :
-    G n q1 q2 p b (step s (.recvPrepare b d)) ∧ Mono b s (step s (.recvPrepare b d)) ∧
+theorem prepare_step (s : St) (d : Nat) (g : G n q1 q2 p b v s) :
+    G n q1 q2 p b v (step s (.recvPrepare b d)) ∧ Mono b s (step s (.recvPrepare b d)) ∧
     (d < n → S0 b s d → S1 b (step s (.recvPrepare b d)) d) := by
   by_cases hc : s.mPrep b d = true ∧ d < s.cfg.n
   · have hle : leOpt (s.acc d).promised b := g.pl d
@@ -96,7 +100,7 @@ theorem prepare_step (s : St) (d : Nat) (g : G n q1 q2 p b s) :
                  mProm := upd2 s.mProm b d (some (s.acc d).accepted) } := by
       simp only [step, if_pos hc, if_pos hle]
     rw [e]
-    refine ⟨⟨g.cfg, g.own, g.live, g.fut, ?_, ?_, g.pdec, g.i1, g.i2⟩, ⟨?_, ?_, fun _ h => h, fun _ h => h, fun _ h => h, fun _ h => h, fun _ h => h⟩, ?_⟩
+    refine ⟨⟨g.cfg, g.own, g.live, g.fut, ?_, ?_, g.pdec, g.i1, g.i2, g.pre, g.dec, g.pv⟩, ⟨?_, ?_, fun _ h => h, fun _ h => h, fun _ h => h, fun _ h => h, fun _ h => h, fun h => h⟩, ?_⟩
     · intro d'
       simp only [upd]
       split
@@ -135,8 +139,8 @@ theorem prepare_step (s : St) (d : Nat) (g : G n q1 q2 p b s) :
 
 /-! ### `Accept` delivered -/
 
-theorem accept_step (s : St) (d : Nat) (g : G n q1 q2 p b s) :
-    G n q1 q2 p b (step s (.recvAccept b d)) ∧ Mono b s (step s (.recvAccept b d)) ∧
+theorem accept_step (s : St) (d : Nat) (g : G n q1 q2 p b v s) :
+    G n q1 q2 p b v (step s (.recvAccept b d)) ∧ Mono b s (step s (.recvAccept b d)) ∧
     (d < n → T0 b s d → T1 b (step s (.recvAccept b d)) d) := by
   cases hm : s.mAcpt b d with
   | none =>
@@ -171,7 +175,11 @@ theorem accept_step (s : St) (d : Nat) (g : G n q1 q2 p b s) :
           · subst hdd; right; left; simp [upd2_apply]
           · left; simp only [upd2_apply]; rw [if_neg (by intro hh; exact hdd hh.2)]; exact h
         · right; exact t1m d' h
-      refine ⟨⟨g.cfg, g.own, g.live, g.fut, ?_, ?_, g.pdec, g.i1, ?_⟩, ⟨fun _ h => h, fun _ h => h, fun _ h => h, t0m, t1m, fun _ h => h, fun _ h => h⟩, ?_⟩
+      have hst : (s.started2 b).isSome := by
+        cases hs : s.started2 b with
+        | some _ => rfl
+        | none => have := ((g.pre (by rw [hs]; rfl)).2 d).2; rw [hm] at this; cases this
+      refine ⟨⟨g.cfg, g.own, g.live, g.fut, ?_, ?_, g.pdec, g.i1, ?_, (fun h => by rw [Option.isNone_iff_eq_none] at h; rw [h] at hst; cases hst), g.dec, g.pv⟩, ⟨fun _ h => h, fun _ h => h, fun _ h => h, t0m, t1m, fun _ h => h, fun _ h => h, fun h => h⟩, ?_⟩
       · intro d'
         simp only [upd]
         split
@@ -194,8 +202,8 @@ theorem accept_step (s : St) (d : Nat) (g : G n q1 q2 p b s) :
 
 /-! ### `Decided` delivered (to a node other than the proposer) -/
 
-theorem decided_step (s : St) (f d : Nat) (hd : d ≠ p) (g : G n q1 q2 p b s) :
-    G n q1 q2 p b (step s (.recvDecided f d)) ∧ Mono b s (step s (.recvDecided f d)) := by
+theorem decided_step (s : St) (f d : Nat) (hd : d ≠ p) (g : G n q1 q2 p b v s) :
+    G n q1 q2 p b v (step s (.recvDecided f d)) ∧ Mono b s (step s (.recvDecided f d)) := by
   cases hm : s.mDec f d with
   | none =>
     have e : step s (.recvDecided f d) = s := by simp only [step, hm]
@@ -205,16 +213,29 @@ theorem decided_step (s : St) (f d : Nat) (hd : d ≠ p) (g : G n q1 q2 p b s) :
     · have e : step s (.recvDecided f d) = { s with mDec := upd2 s.mDec f d none } := by
         simp only [step, hm, if_pos hdec]
       rw [e]
-      exact ⟨⟨g.cfg, g.own, g.live, g.fut, g.pl, g.selfp, g.pdec, g.i1, g.i2⟩, ⟨fun _ h => h, fun _ h => h, fun _ h => h, fun _ h => h, fun _ h => h, fun _ h => h, fun _ h => h⟩⟩
+      refine ⟨⟨g.cfg, g.own, g.live, g.fut, g.pl, g.selfp, g.pdec, g.i1, g.i2, g.pre, ?_, g.pv⟩, ⟨fun _ h => h, fun _ h => h, fun _ h => h, fun _ h => h, fun _ h => h, fun _ h => h, fun _ h => h, fun h => h⟩⟩
+      intro h d' h1 h2
+      rcases g.dec h d' h1 h2 with h3 | h3
+      · left; exact h3
+      · by_cases hdd : d' = d
+        · subst hdd; left; exact hdec
+        · right; simp only [upd2_apply]; rw [if_neg (by intro hh; exact hdd hh.2)]; exact h3
     · have e : step s (.recvDecided f d) = { s with mDec := upd2 s.mDec f d none, decided := upd s.decided d (some w) } := by
         simp only [step, hm, if_neg hdec]
       rw [e]
       have hp : upd s.decided d (some w) p = s.decided p := upd_other _ _ _ _ (fun e => hd e.symm)
-      refine ⟨⟨g.cfg, g.own, g.live, g.fut, g.pl, g.selfp, ?_, g.i1, ?_⟩, ⟨fun _ h => h, fun _ h => h, fun _ h => h, fun _ h => h, fun _ h => h, fun _ h => h, ?_⟩⟩
+      refine ⟨⟨g.cfg, g.own, g.live, g.fut, g.pl, g.selfp, ?_, g.i1, ?_, g.pre, ?_, g.pv⟩, ⟨fun _ h => h, fun _ h => h, fun _ h => h, fun _ h => h, fun _ h => h, fun _ h => h, ?_, fun h => h⟩⟩
       · intro h; simp only [hp] at h ⊢; exact g.pdec h
       · intro hs
         obtain ⟨a1, a2, a3⟩ := g.i2 hs
         exact ⟨a1, a2, fun h => by simp only [hp]; exact a3 h⟩
+      · intro h d' h1 h2
+        simp only [hp] at h ⊢
+        by_cases hdd : d' = d
+        · subst hdd; left; simp [upd]
+        · rcases g.dec h d' h1 h2 with h3 | h3
+          · left; simp only [upd]; rw [if_neg hdd]; exact h3
+          · right; simp only [upd2_apply]; rw [if_neg (by intro hh; exact hdd hh.2)]; exact h3
       · intro d' h
         simp only [upd]
         split
@@ -227,18 +248,24 @@ theorem decide_G (t : St) (w : Val) (hb : b % n = p) (hcfg : t.cfg = ⟨n, q1, q
     (live : t.live b = true) (fut : t.futOf b = some 0) (pl : ∀ d, leOpt (t.acc d).promised b)
     (selfp : (t.acc p).promised = some b) (pdec : (t.decided p).isSome → t.futRes 0 = t.decided p)
     (i1 : q1 ≤ (t.p1 b).length → (t.started2 b).isSome)
-    (i2 : (t.started2 b).isSome → T2 b t p ∧ (∀ d, d ≠ p → d < n → T0 b t d)) :
-    G n q1 q2 p b (decide_ t b w) ∧ Mono b t (decide_ t b w) := by
+    (i2 : (t.started2 b).isSome → T2 b t p ∧ (∀ d, d ≠ p → d < n → T0 b t d))
+    (pre : (t.started2 b).isNone → t.acks b = [] ∧ ∀ d, t.mAcptd b d = false ∧ t.mAcpt b d = none)
+    (dec : (t.decided p).isSome → ∀ d, d ≠ p → d < n → (t.decided d).isSome ∨ t.mDec p d = t.decided p)
+    (pv : t.proposedVals = [v]) :
+    G n q1 q2 p b v (decide_ t b w) ∧ Mono b t (decide_ t b w) := by
   by_cases hdec : (t.decided p).isSome
   · have e : decide_ t b w = t := by simp only [decide_, hcfg, hb, if_pos hdec]
     rw [e]
-    exact ⟨⟨hcfg, own, live, fut, pl, selfp, pdec, i1, fun hs => ⟨(i2 hs).1, (i2 hs).2, fun _ => hdec⟩⟩, Mono.refl b t⟩
+    exact ⟨⟨hcfg, own, live, fut, pl, selfp, pdec, i1, fun hs => ⟨(i2 hs).1, (i2 hs).2, fun _ => hdec⟩, pre, dec, pv⟩, Mono.refl b t⟩
   · have e : decide_ t b w = { t with decided := upd t.decided p (some w), mDec := (fun f d => if f = p ∧ d ≠ p ∧ d < n then some w else t.mDec f d), futRes := upd t.futRes 0 (some w) } := by
       simp only [decide_, hcfg, hb, if_neg hdec, fut]
     rw [e]
-    refine ⟨⟨hcfg, own, live, fut, pl, selfp, ?_, i1, ?_⟩, ⟨fun _ h => h, fun _ h => h, fun _ h => h, fun _ h => h, fun _ h => h, fun _ h => h, ?_⟩⟩
+    refine ⟨⟨hcfg, own, live, fut, pl, selfp, ?_, i1, ?_, pre, ?_, pv⟩, ⟨fun _ h => h, fun _ h => h, fun _ h => h, fun _ h => h, fun _ h => h, fun _ h => h, ?_, fun h => h⟩⟩
     · intro _; simp [upd]
     · intro hs; exact ⟨(i2 hs).1, (i2 hs).2, fun _ => by simp [upd]⟩
+    · intro _ d h1 h2
+      right
+      simp [upd, h1, h2]
     · intro d h
       simp only [upd]; split
       · rfl
@@ -246,8 +273,8 @@ theorem decide_G (t : St) (w : Val) (hb : b % n = p) (hcfg : t.cfg = ⟨n, q1, q
 
 /-! ### `Accepted` delivered -/
 
-theorem accepted_step (s : St) (f : Nat) (hb : b % n = p) (g : G n q1 q2 p b s) :
-    G n q1 q2 p b (step s (.recvAccepted b f)) ∧ Mono b s (step s (.recvAccepted b f)) ∧
+theorem accepted_step (s : St) (f : Nat) (hb : b % n = p) (g : G n q1 q2 p b v s) :
+    G n q1 q2 p b v (step s (.recvAccepted b f)) ∧ Mono b s (step s (.recvAccepted b f)) ∧
     (T1 b s f → T2 b (step s (.recvAccepted b f)) f) := by
   by_cases hm : s.mAcptd b f = true
   · -- the state after counting the acknowledgement, before `_decide`
@@ -268,7 +295,7 @@ theorem accepted_step (s : St) (f : Nat) (hb : b % n = p) (g : G n q1 q2 p b s) 
       · left; exact h
       · right; exact t1m d' h
     have mono1 : Mono b s { s with mAcptd := upd2 s.mAcptd b f false, acks := upd s.acks b (f :: s.acks b) } :=
-      ⟨fun _ h => h, fun _ h => h, fun _ h => h, t0m, t1m, t2m, fun _ h => h⟩
+      ⟨fun _ h => h, fun _ h => h, fun _ h => h, t0m, t1m, t2m, fun _ h => h, fun h => h⟩
     have i2' : (s.started2 b).isSome → T2 b { s with mAcptd := upd2 s.mAcptd b f false, acks := upd s.acks b (f :: s.acks b) } p ∧
         (∀ d, d ≠ p → d < n → T0 b { s with mAcptd := upd2 s.mAcptd b f false, acks := upd s.acks b (f :: s.acks b) } d) := by
       intro hs
@@ -279,20 +306,22 @@ theorem accepted_step (s : St) (f : Nat) (hb : b % n = p) (g : G n q1 q2 p b s) 
       have e : step s (.recvAccepted b f) = { s with mAcptd := upd2 s.mAcptd b f false, acks := upd s.acks b (f :: s.acks b) } := by
         simp only [step, if_pos hm, g.live, if_true, hs]
       rw [e]
-      refine ⟨⟨g.cfg, g.own, g.live, g.fut, g.pl, g.selfp, g.pdec, g.i1, ?_⟩, mono1, fun _ => t2f⟩
-      intro h; rw [show ({ s with mAcptd := upd2 s.mAcptd b f false, acks := upd s.acks b (f :: s.acks b) } : St).started2 b = s.started2 b from rfl, hs] at h; cases h
+      exfalso
+      have := ((g.pre (by rw [hs]; rfl)).2 f).1; rw [hm] at this; cases this
     | some w =>
       by_cases hq : s.cfg.q2 ≤ (f :: s.acks b).length
       · have e : step s (.recvAccepted b f) = decide_ { s with mAcptd := upd2 s.mAcptd b f false, acks := upd s.acks b (f :: s.acks b) } b w := by
           simp only [step, if_pos hm, g.live, if_true, hs, upd_same, if_pos hq]
         rw [e]
-        obtain ⟨g', m'⟩ := decide_G n q1 q2 p b { s with mAcptd := upd2 s.mAcptd b f false, acks := upd s.acks b (f :: s.acks b) } w hb
+        obtain ⟨g', m'⟩ := decide_G n q1 q2 p b v { s with mAcptd := upd2 s.mAcptd b f false, acks := upd s.acks b (f :: s.acks b) } w hb
           g.cfg g.own g.live g.fut g.pl g.selfp g.pdec g.i1 (fun h => i2' (by rw [hs]; rfl))
+          (fun h => by rw [show ({ s with mAcptd := upd2 s.mAcptd b f false, acks := upd s.acks b (f :: s.acks b) } : St).started2 b = s.started2 b from rfl, hs] at h; cases h)
+          g.dec g.pv
         exact ⟨g', Mono.trans b mono1 m', fun _ => m'.t2 f t2f⟩
       · have e : step s (.recvAccepted b f) = { s with mAcptd := upd2 s.mAcptd b f false, acks := upd s.acks b (f :: s.acks b) } := by
           simp only [step, if_pos hm, g.live, if_true, hs, upd_same, if_neg hq]
         rw [e]
-        refine ⟨⟨g.cfg, g.own, g.live, g.fut, g.pl, g.selfp, g.pdec, g.i1, ?_⟩, mono1, fun _ => t2f⟩
+        refine ⟨⟨g.cfg, g.own, g.live, g.fut, g.pl, g.selfp, g.pdec, g.i1, ?_, (fun h => by rw [show ({ s with mAcptd := upd2 s.mAcptd b f false, acks := upd s.acks b (f :: s.acks b) } : St).started2 b = s.started2 b from rfl, hs] at h; cases h), g.dec, g.pv⟩, mono1, fun _ => t2f⟩
         intro h
         obtain ⟨a1, a2⟩ := i2' (by rw [hs]; rfl)
         refine ⟨a1, a2, ?_⟩
@@ -309,15 +338,133 @@ theorem accepted_step (s : St) (f : Nat) (hb : b % n = p) (g : G n q1 q2 p b s) 
     · exact absurd h hm
     · exact h
 
+/-! ### `Promise` delivered; `_start_phase2` -/
+
+/-- the state `_start_phase2` builds before it looks at the acknowledgement count -/
+def startSt (t : St) : St :=
+  { t with started2 := upd t.started2 b (some (phase2Val t b)), acc := upd t.acc p { (t.acc p) with accepted := some (b, phase2Val t b) }, acks := upd t.acks b [p], votes := (p, b, phase2Val t b) :: t.votes, mAcpt := (fun b' d => if b' = b ∧ d ≠ p ∧ d < n then some (phase2Val t b) else t.mAcpt b' d) }
+
+theorem startPhase2_eq (t : St) (hb : b % n = p) (hcfg : t.cfg = ⟨n, q1, q2⟩) (selfp : (t.acc p).promised = some b) :
+    startPhase2 t b = if q2 ≤ 1 then decide_ (startSt n p b t) b (phase2Val t b) else startSt n p b t := by
+  simp [startPhase2, startSt, hcfg, hb, selfp]
+
+/-- `G` without the two quorum guards (they do not hold between counting the promise and starting phase 2) -/
+structure Gw (s : St) : Prop where
+  cfg : s.cfg = ⟨n, q1, q2⟩
+  own : (s.ownVal b).isSome
+  live : s.live b = true
+  fut : s.futOf b = some 0
+  pl : ∀ d, leOpt (s.acc d).promised b
+  selfp : (s.acc p).promised = some b
+  pdec : (s.decided p).isSome → s.futRes 0 = s.decided p
+  pre : (s.started2 b).isNone → s.acks b = [] ∧ ∀ d, s.mAcptd b d = false ∧ s.mAcpt b d = none
+  dec : (s.decided p).isSome → ∀ d, d ≠ p → d < n → (s.decided d).isSome ∨ s.mDec p d = s.decided p
+  pv : s.proposedVals = [v]
+
+theorem start_G (t : St) (hb : b % n = p) (g : Gw n q1 q2 p b v t) (hnone : t.started2 b = none) :
+    G n q1 q2 p b v (startPhase2 t b) ∧ Mono b t (startPhase2 t b) ∧ ((startPhase2 t b).started2 b).isSome := by
+  obtain ⟨hacks, hpre⟩ := g.pre (by rw [hnone]; rfl)
+  have hst : ((startSt n p b t).started2 b).isSome := by simp [startSt]
+  have mono : Mono b t (startSt n p b t) := by
+    refine ⟨fun _ h => h, fun _ h => h, fun _ h => h, ?_, ?_, ?_, fun _ h => h, fun _ => hst⟩
+    · intro d h
+      rcases h with h | h | h
+      · rw [(hpre d).2] at h; cases h
+      · rw [(hpre d).1] at h; cases h
+      · unfold T2 at h; rw [hacks] at h; cases h
+    · intro d h
+      rcases h with h | h
+      · rw [(hpre d).1] at h; cases h
+      · unfold T2 at h; rw [hacks] at h; cases h
+    · intro d h
+      unfold T2 at h; rw [hacks] at h; cases h
+  have hT2 : T2 b (startSt n p b t) p := by simp [T2, startSt]
+  have hT0 : ∀ d, d ≠ p → d < n → T0 b (startSt n p b t) d := by
+    intro d h1 h2; left; simp [startSt, h1, h2]
+  have hacks' : (startSt n p b t).acks b = [p] := by simp [startSt]
+  have hpl : ∀ d, leOpt ((startSt n p b t).acc d).promised b := by
+    intro d
+    simp only [startSt, upd]
+    split
+    · rename_i h; subst h; exact g.pl d
+    · exact g.pl d
+  have hselfp : ((startSt n p b t).acc p).promised = some b := by simp [startSt, g.selfp]
+  have hpre' : ((startSt n p b t).started2 b).isNone → (startSt n p b t).acks b = [] ∧ ∀ d, (startSt n p b t).mAcptd b d = false ∧ (startSt n p b t).mAcpt b d = none := by
+    intro h; rw [Option.isNone_iff_eq_none] at h; rw [h] at hst; cases hst
+  rw [startPhase2_eq n q1 q2 p b t hb g.cfg g.selfp]
+  by_cases hq : q2 ≤ 1
+  · rw [if_pos hq]
+    obtain ⟨g', m'⟩ := decide_G n q1 q2 p b v (startSt n p b t) (phase2Val t b) hb g.cfg g.own g.live g.fut hpl hselfp g.pdec
+      (fun _ => hst) (fun _ => ⟨hT2, hT0⟩) hpre' g.dec g.pv
+    exact ⟨g', Mono.trans b mono m', m'.st hst⟩
+  · rw [if_neg hq]
+    refine ⟨⟨g.cfg, g.own, g.live, g.fut, hpl, hselfp, g.pdec, fun _ => hst, ?_, hpre', g.dec, g.pv⟩, mono, hst⟩
+    intro _
+    refine ⟨hT2, hT0, ?_⟩
+    intro h; rw [hacks'] at h; exact absurd h hq
+
+/-- the state after the promise is counted, before the quorum test -/
+def cntSt (s : St) (f : Nat) (a : AccV) : St :=
+  { s with mProm := upd2 s.mProm b f none, p1 := upd s.p1 b ((f, a) :: s.p1 b) }
+
+theorem promise_step (s : St) (f : Nat) (hb : b % n = p) (g : G n q1 q2 p b v s) :
+    G n q1 q2 p b v (step s (.recvPromise b f)) ∧ Mono b s (step s (.recvPromise b f)) ∧
+    (S1 b s f → S2 b (step s (.recvPromise b f)) f) := by
+  cases hm : s.mProm b f with
+  | none =>
+    have e : step s (.recvPromise b f) = s := by simp only [step, hm]
+    rw [e]
+    refine ⟨g, Mono.refl b s, ?_⟩
+    intro h
+    rcases h with h | h
+    · rw [hm] at h; cases h
+    · exact h
+  | some a =>
+    have hp1 : (cntSt b s f a).p1 b = (f, a) :: s.p1 b := by simp [cntSt]
+    have s2f : S2 b (cntSt b s f a) f := by unfold S2; rw [hp1]; simp
+    have s2m : ∀ d, S2 b s d → S2 b (cntSt b s f a) d := by
+      intro d h; unfold S2 at h ⊢; rw [hp1]; simp only [List.map_cons, List.mem_cons]; right; exact h
+    have s1m : ∀ d, S1 b s d → S1 b (cntSt b s f a) d := by
+      intro d h
+      by_cases hd : d = f
+      · subst hd; right; exact s2f
+      · rcases h with h | h
+        · left; simp only [cntSt, upd2_apply]; rw [if_neg (by intro hh; exact hd hh.2)]; exact h
+        · right; exact s2m d h
+    have s0m : ∀ d, S0 b s d → S0 b (cntSt b s f a) d := by
+      intro d h
+      rcases h with h | h
+      · left; exact h
+      · right; exact s1m d h
+    have mono1 : Mono b s (cntSt b s f a) := ⟨s0m, s1m, s2m, fun _ h => h, fun _ h => h, fun _ h => h, fun _ h => h, fun h => h⟩
+    by_cases hc : s.cfg.q1 ≤ ((f, a) :: s.p1 b).length ∧ (s.started2 b).isNone
+    · have e : step s (.recvPromise b f) = startPhase2 (cntSt b s f a) b := by
+        simp only [step, hm, g.own, g.live, and_self, if_true, upd_same, if_pos hc, cntSt]
+      rw [e]
+      have g1 : Gw n q1 q2 p b v (cntSt b s f a) :=
+        ⟨g.cfg, g.own, g.live, g.fut, g.pl, g.selfp, g.pdec, g.pre, g.dec, g.pv⟩
+      have hnone : (cntSt b s f a).started2 b = none := by
+        have := hc.2; rw [Option.isNone_iff_eq_none] at this; exact this
+      obtain ⟨g2, m2, _⟩ := start_G n q1 q2 p b v (cntSt b s f a) hb g1 hnone
+      exact ⟨g2, Mono.trans b mono1 m2, fun _ => m2.s2 f s2f⟩
+    · have e : step s (.recvPromise b f) = cntSt b s f a := by
+        simp only [step, hm, g.own, g.live, and_self, if_true, upd_same, if_neg hc, cntSt]
+      rw [e]
+      refine ⟨⟨g.cfg, g.own, g.live, g.fut, g.pl, g.selfp, g.pdec, ?_, g.i2, g.pre, g.dec, g.pv⟩, mono1, fun _ => s2f⟩
+      intro hq
+      rw [hp1] at hq
+      cases hs : s.started2 b with
+      | some _ => simp [cntSt, hs]
+      | none => exact absurd ⟨by rw [g.cfg]; exact hq, by rw [hs]; rfl⟩ hc
+
 end
 
 /-- `x` occurs in the schedule before some occurrence of `y` -/
 def Before (x y : Act) (as : List Act) : Prop := ∃ l1 l2, as = l1 ++ l2 ∧ x ∈ l1 ∧ y ∈ l2
 
-/-- SINGLE PROPOSER DECIDES, bounded-progress form — the full statement (NOT proved; proved are the per-message
-    steps above: each delivery of ballot-`b` traffic keeps the invariant `G`, never lowers a stage (`Mono`) and
-    advances the acceptor concerned by one stage — `prepare_step`, `accept_step`, `accepted_step`, `decide_G`,
-    `decided_step`; the `Promise` step with `_start_phase2`, and the assembly over the schedule, are missing).
+/-- SINGLE PROPOSER DECIDES, bounded-progress form — the full statement (proved in `PxLiveFull.lean`:
+    `single_proposer_decides`, from the per-message steps above).  `2 ≤ q1`: the code enters phase 2 when a
+    delivered Promise completes the quorum, never on the proposer's own promise alone (`PaxosNode` has `q ≥ 2`).
     From the initial state, `p` proposes `v` under ballot `b`; nobody else proposes; `as1` delivers the Prepare to the
     acceptors of `Q1` and their Promises back, `as2` the Accepts to those of `Q2` and their Accepted back — in any
     order, with repetitions, among any other deliveries of existing traffic.  Then `p` decides `v`, its future
@@ -325,7 +472,7 @@ def Before (x y : Act) (as : List Act) : Prop := ∃ l1 l2, as = l1 ++ l2 ∧ x 
     message of `p` waiting for it. -/
 def single_proposer_decides_full : Prop :=
   ∀ (n q1 q2 p b : Nat) (v : Val) (as1 as2 : List Act) (Q1 Q2 : List Nat),
-    p < n → b % n = p → n < q1 + q2 → 1 ≤ q2 →
+    p < n → b % n = p → n < q1 + q2 → 2 ≤ q1 → 1 ≤ q2 →
     Q1.Nodup → p ∉ Q1 → (∀ d ∈ Q1, d < n) → q1 ≤ Q1.length + 1 →
     Q2.Nodup → p ∉ Q2 → (∀ d ∈ Q2, d < n) → q2 ≤ Q2.length + 1 →
     (∀ a ∈ as1 ++ as2, DelivB b a ∧ NotTo p a) →
